@@ -23,8 +23,14 @@ func (e *Engine) applyOptions(pi int, p *PatSpec) []res.Option {
 	}
 	fail := func(r res.Resource, what string) error {
 		e.H.Rec("apply", "", pi, what+" "+r.ResourceName())
-		if p.Apply == "fail" {
+		switch p.Apply {
+		case "fail":
 			return errors.New("apply failed")
+		case "failnotfound":
+			// the natural error of a store-backed apply handler
+			return res.ErrNotFound
+		case "failreserr":
+			return &res.Error{Code: "test.apply", Message: "apply refused"}
 		}
 		return nil
 	}
